@@ -211,7 +211,19 @@ def all_patterns():
 
     st = loader.real_stack()
     pats = set()
-    tr = st.regex.DNARegex._transcribe
+
+    def tr(structure):
+        # the regular expression the repository itself compiles for a structure (public attribute `regex`); if that
+        # cannot be read, the harness's own IUPAC expansion is used instead
+        try:
+            p_ = st.regex.DNARegex(structure).regex.pattern
+            if isinstance(p_, str):
+                return p_
+        except Exception:
+            pass
+        from harness.c16 import oracle_regex
+
+        return oracle_regex(structure)
     for kit in loader.KITS:
         try:
             m = st.kit(kit)
@@ -243,7 +255,19 @@ def run_all(seed, which=("re", "catalyse", "records"), shapes=()):
         from . import loader
 
         st = loader.real_stack()
-        pats = all_patterns() + [st.regex.DNARegex._transcribe(s) for s in shapes]
+
+        def tr(structure):
+            try:
+                p_ = st.regex.DNARegex(structure).regex.pattern
+                if isinstance(p_, str):
+                    return p_
+            except Exception:
+                pass
+            from harness.c16 import oracle_regex
+
+            return oracle_regex(structure)
+
+        pats = all_patterns() + [tr(s) for s in shapes]
         n, bad = validate_regex(pats, rng)
         report["re"] = dict(cases=n, patterns=len(pats), mismatches=len(bad))
         bad_total += bad
